@@ -61,7 +61,14 @@ pub fn ref_string(r: &Value) -> Option<String> {
     let q = if gs(r, "q") != "-" && !gs(r, "q").is_empty() { format!("?{}", gs(r, "q")) } else { String::new() };
     let frag = if gb(r, "frag") { "#f" } else { "" };
     let auth = |r: &Value| {
-        let mut a = gs(r, "host").to_string();
+        let mut a = String::new();
+        if let Some(u) = gso(r, "user") {
+            if u != "-" {
+                a.push_str(u);
+                a.push('@');
+            }
+        }
+        a.push_str(gs(r, "host"));
         if gu(r, "port") != 0 {
             a.push_str(&format!(":{}", gu(r, "port")));
         }
@@ -479,7 +486,22 @@ pub fn run(sc: &Value) -> Vec<String> {
     };
     let tmpfile = format!("/tmp/vh-body-{}-{:?}", std::process::id(), std::thread::current().id()).replace(['(', ')'], "");
     let result = catch_unwind(AssertUnwindSafe(|| -> Result<(u16, String), String> {
-        let mut rb = attohttpc::RequestBuilder::try_new(attohttpc::Method::from_bytes(method.as_bytes()).unwrap(), &url_s).map_err(|e| err_kind(&e))?;
+        let mut rb = if req.get("session_headers").is_some() {
+            // the request is created from a session that carries default header fields
+            let mut session = attohttpc::Session::new();
+            for h in ga(req, "session_headers") {
+                let name = http::header::HeaderName::from_bytes(h[0].as_str().unwrap().as_bytes()).unwrap();
+                session.header(name, h[1].as_str().unwrap());
+            }
+            let m = method.to_ascii_uppercase();
+            match m.as_str() {
+                "POST" => session.post(&url_s),
+                "PUT" => session.put(&url_s),
+                _ => session.get(&url_s),
+            }
+        } else {
+            attohttpc::RequestBuilder::try_new(attohttpc::Method::from_bytes(method.as_bytes()).unwrap(), &url_s).map_err(|e| err_kind(&e))?
+        };
         rb = rb.proxy_settings(build_proxy());
         if let Some(f) = settings.get("follow").and_then(|x| x.as_bool()) {
             rb = rb.follow_redirects(f);
@@ -729,7 +751,7 @@ pub fn generate(seed: u64, tier: &str) -> Vec<Value> {
         let kind = *r.pick(&kinds);
         let len = *r.pick(&[0usize, 1, 10, 8191, 8192, 8193, 20000, 70000]);
         let nw = r.below(5);
-        let writes: Vec<usize> = (0..nw).map(|_| *r.pick(&[0usize, 1, 100, 8192, 9000])).collect();
+        let writes: Vec<usize> = (0..nw).map(|_| *r.pick(&[0usize, 1, 100, 8192, 9000, 16384, 16385, 40000])).collect();
         let mut req = json!({"method":*r.pick(&methods),"url":url,"body":{"kind":kind,"len":len,"writes":writes,"chunked":r.chance(1,2),"flush_every":r.below(3)},
             "headers":headers,"params":params});
         match r.below(6) {
